@@ -21,7 +21,7 @@ import (
 )
 
 func TestMain(m *testing.M) {
-	ev.Note("rule", "C19: rapid-generated schema YAML documents (0-8 objects x 0-8 properties, identifier names incl. underscores, digits, mixed case, names differing only by case, every type ID, refs, optional display/required keys, unknown extra keys) x argument forms (no ignore argument, ignore naming an existing / missing / empty object). The generator binary is built from the working tree and run as a subprocess in a fresh directory, 10 times per document. Oracle: exit status 0 and no panic; output parses with go/parser, is gofmt-stable, has exactly one struct per non-ignored object and one field per property with tag json:\"<name>\" and type int64/float64/ref id/type ID; all runs byte-identical. Non-trivial: >=2 objects or an object with >=2 properties (map order can show), or the no-ignore form; distinct by (document, arguments).")
+	ev.Note("rule", "C19: rapid-generated schema YAML documents (0-8 objects x 0-8 properties, identifier names incl. underscores, digits, mixed case, names differing only by case, every type ID, refs, optional display/required keys, unknown extra keys) x argument forms (no ignore argument, ignore naming an existing / missing / empty object). The generator binary is built from the working tree and run as a subprocess 10 times per document in one directory that already holds a longer output of an earlier invocation (nothing is removed between runs). Oracle: exit status 0 and no panic; output parses with go/parser, is gofmt-stable, has exactly one struct per non-ignored object and one field per property with tag json:\"<name>\" and type int64/float64/ref id/type ID; all runs byte-identical. Non-trivial: >=2 objects or an object with >=2 properties (map order can show), or the no-ignore form; distinct by (document, arguments).")
 	ev.RegisterReplay("doc", func(t *testing.T, raw json.RawMessage) {
 		var c docCase
 		if err := json.Unmarshal(raw, &c); err != nil {
@@ -235,9 +235,14 @@ func runDoc(c docCase, runs int) string {
 	if c.HasIgnore {
 		args = append(args, c.Ignore)
 	}
+	// The generator is re-run in the directory where it ran before (that is how it is used): a longer output of an
+	// earlier invocation is already there before the first run, and nothing is removed between the runs.
+	stale := "package stale\n\n" + strings.Repeat("// output of an earlier run on a larger schema file\ntype StaleLeftOver struct{ X int }\n", 600)
+	if err := os.WriteFile(filepath.Join(dir, "typedef_output.go"), []byte(stale), 0o644); err != nil {
+		return err.Error()
+	}
 	var first []byte
 	for i := 0; i < runs; i++ {
-		_ = os.Remove(filepath.Join(dir, "typedef_output.go"))
 		cmd := exec.Command(bin, args...)
 		cmd.Dir = dir
 		var stderr bytes.Buffer
